@@ -89,3 +89,52 @@ def install(reg):
                  note="summary used by scan_file: fold_scopes nests one level only (children of children stay empty)")
     reg.contract(SC + "count_lines", params={"scope": "Scope", "tokens": "list[Token]"}, returns="int", pure=True, note="summary")
     reg.contract(S + "_read_file", params={"path": "ext:Path"}, returns="str", pure=True, note="summary; verified in C03 (decoding never fails)")
+
+
+def install_blocks(reg):
+    TU = "codelimit.common.token_utils:"
+    RANGES = ("forall(0, len(result), lambda k: 0 <= result[k][0] < result[k][1] < {n} and "
+              "tokens[result[k][0]].is_symbol(start) and tokens[result[k][1]].is_symbol(end))")
+    reg.contract(
+        TU + "get_balanced_symbol_token_indices",
+        params={"tokens": "list[Token]", "start": "str", "end": "str", "extract_nested": "bool"}, returns="list[tuple[int,int]]",
+        fresh_result=True, pure=True,
+        requires={"distinct_symbols": "start != end"},
+        ensures={"every_pair_is_an_opener_before_a_closer_within_bounds": RANGES.format(n="len(tokens)")},
+        loops={0: dict(fingerprint="index, t in enumerate(tokens)", invariant={
+            "pairs": RANGES.format(n="i"),
+            "open_blocks_are_openers_seen_so_far": "forall(0, len(block_starts), lambda k: 0 <= block_starts[k] < i and "
+                                                   "tokens[block_starts[k]].is_symbol(start))",
+        })},
+        locals={"result": "list[tuple[int,int]]", "block_starts": "list[int]"}, props=("C05", "C03"),
+    )
+    reg.contract(
+        SC + "get_blocks", params={"tokens": "list[Token]", "open": "str", "close": "str", "extract_nested": "bool"},
+        returns="list[TokenRange]", fresh_result=True,
+        requires={"distinct_symbols": "open != close"},
+        ensures={"as_many_blocks_as_balanced_pairs": "len(result) == len(call_result('get_balanced_symbol_token_indices'))"},
+        call_sites={"get_balanced_symbol_token_indices": {"same_tokens_and_symbols": "arg0 is tokens and arg1 == open and arg2 == close and arg3 == extract_nested"},
+                    "sort_token_ranges": {"the_half_open_ranges_of_the_pairs":
+                                          "len(arg0) == len(balanced_tokens) and forall(0, len(arg0), lambda k: arg0[k].start == balanced_tokens[k][0] "
+                                          "and arg0[k].end == balanced_tokens[k][1] + 1) and arg1 is tokens"}},
+        props=("C05", "C01"),
+    )
+    reg.contract("codelimit.common.TokenRange:sort_token_ranges", params={"token_ranges": "list[TokenRange]", "tokens": "list[Token]", "reverse": "bool"},
+                 returns="list[TokenRange]", fresh_result=True, pure=True, assumed=True,
+                 ensures={"same_length": "len(result) == len(token_ranges)"}, note="summary: a permutation ordered by position")
+    reg.contract(
+        SC + "fold_scopes", params={"scopes": "list[Scope]"}, returns="list[Scope]", fresh_result=True,
+        requires={"fresh_scopes_have_no_children": "forall(0, len(scopes), lambda k: len(scopes[k].children) == 0) and "
+                                                   "forall(0, len(scopes), lambda a, b: scopes[a] is not scopes[b])"},
+        ensures={"not_more_than_given": "len(result) <= len(scopes)"},
+        loops={0: dict(fingerprint="scope in scopes", invariant={"bounded": "len(result) <= i"})},
+        locals={"result": "list[Scope]"}, modifies=["*"], props=("C05",),
+    )
+
+
+_install_c = install
+
+
+def install(reg):
+    _install_c(reg)
+    install_blocks(reg)
